@@ -146,6 +146,9 @@ func record(c Case) {
 	cls := []string{fmt.Sprintf("%s:len%%16=%d", c.Dir, len(c.Body)%16)}
 	if c.Dir == "c2s" {
 		cls = append(cls, fmt.Sprintf("c2s:ack=%v", c.Ack))
+		if c.SeqNo < 0 {
+			cls = append(cls, "c2s:seq_no>=2^31")
+		}
 		if c.Derived != "" {
 			cls = append(cls, "c2s:derived-fields-"+c.Derived)
 		}
@@ -185,7 +188,8 @@ func gen(t *rapid.T) Case {
 	switch c.Dir {
 	case "c2s":
 		c.MsgID = i64(t, "msgid") &^ 3
-		c.SeqNo = rapid.Int32Range(0, 1<<30-1).Draw(t, "seq") * 2
+		// the client's counter is an int32 that grows by two per message: any even value, the far end included
+		c.SeqNo = rapid.OneOf(rapid.SampledFrom([]int32{0, 2, 1<<31 - 2, -1 << 31, -2, -1<<31 + 2}), rapid.Int32()).Draw(t, "seq") &^ 1
 		c.Ack = rapid.Bool().Draw(t, "ack")
 		c.Derived = rapid.SampledFrom([]string{"", "consistent", "stale"}).Draw(t, "derived")
 	case "s2c":
